@@ -7,6 +7,7 @@ package zsim
 // the reconnect policy of server.followSource re-implemented here (stub).
 
 import (
+	"hash/fnv"
 	"context"
 	"fmt"
 	"path/filepath"
@@ -434,11 +435,30 @@ func (c *Cluster) registerOne(l *CNode, fn *CNode, gen int, partition int, query
 			case "retriable":
 				return nil, common.MarkRetriable(fmt.Errorf("simulated retriable failure of %s", fn.Name))
 			case "hang":
-				<-ctx.Done()
+				// no answer until the caller gave up (a follower serves many
+				// queries at once: a stuck one does not take the others down,
+				// and ends with its connection), at most for a minute
+				select {
+				case <-ctx.Done():
+				case <-time.After(time.Minute):
+				}
 				time.Sleep(qf.D)
-				return nil, ctx.Err()
+				if err := ctx.Err(); err != nil {
+					return nil, err
+				}
+				return nil, fmt.Errorf("follower %s did not answer", fn.Name)
 			case "slow":
 				time.Sleep(qf.D)
+			}
+		}
+		if max := c.p.Cfg.Extra["qlat"]; max > 0 {
+			// a latency that is a function of the seed, the follower and the
+			// query text only (never of the order in which handlers happen to run)
+			h := fnv.New64a()
+			fmt.Fprintf(h, "%d|%s|%s", c.p.Seed, fn.Name, sqlString)
+			if d := time.Duration(h.Sum64() % uint64(max)); d > 0 {
+				c.e.Count("fault.query.latency")
+				time.Sleep(d)
 			}
 		}
 		rows := 0
